@@ -60,7 +60,7 @@ def main():
             "guard": "QUILL_VERIF",
             "enable": "harnesses are compiled from /repo/include with -DQUILL_VERIF (header-only library; no CMake build needed)",
             "baseline_off_cmd": "cmake --build /repo/_build -j16 && ctest --test-dir /repo/_build -j8 --timeout 900",
-            "source_commits": [],
+            "source_commits": ["4919236"],
             "add_only": True,
         },
         "engines": [{
